@@ -852,7 +852,10 @@ void init_binaries () {
       if (CONFIG_STR(__SIMUL_EFUN_FILE__))
         {
           struct stat st;
-          if (0 == stat (CONFIG_STR(__SIMUL_EFUN_FILE__), &st))
+          const char *simul_file = CONFIG_STR(__SIMUL_EFUN_FILE__);
+          while (*simul_file == '/') /* a mudlib path: relative to the mudlib directory we are in */
+            simul_file++;
+          if (0 == stat (simul_file, &st))
             {
               config_id = (uint64_t)st.st_mtime;
             }
